@@ -1,6 +1,7 @@
 (* Props/C16.v - Catalog answers mirror the application's declared schema exactly. *)
 From Coq Require Import List NArith Lia Bool.
 From MM Require Import Lib.Bytes Model.Like Model.Catalog Proofs.LikeProofs Proofs.CatalogProofs Gen.FactsCatalog Gen.FactsConn Model.Packets Proofs.PacketProofs.
+From MM Require Import Gen.FactsOutline.
 Import ListNotations.
 Open Scope N_scope.
 
@@ -12,6 +13,12 @@ Theorem c16_source_shape :
   connection_connection_handle_field_list_ok = true /\ schema_ensure_info_schema_ok = true /\ schema_infoschema_query_ok = true /\
   schema_infoschema_from_mapping_ok = true /\ session_session_query_info_schema_ok = true /\ session_session_show_middleware_ok = true.
 Proof. repeat split; reflexivity. Qed.
+
+(* the modules this property rests on define the functions, classes, methods and class-level names they defined when the
+   model was transcribed - nothing added (an override, a new helper in the path), removed or renamed *)
+Theorem c16_module_outlines : translated_outline = true /\ outline_schema_ok = true /\ outline_session_ok = true.
+Proof. repeat split; reflexivity. Qed.
+
 
 (* the regular expression built from a LIKE pattern matches exactly the strings SQL LIKE matches (whole string,
    % any sequence, _ any single character, everything else literally) - for every pattern and every string *)
